@@ -24,6 +24,16 @@ Proof. exact progress_run. Qed.
 Theorem C07_terminates : forall n, well_founded (istep n).
 Proof. exact internal_terminates. Qed.
 
+(* ... namely: where no internal step is enabled any more after j.done was closed, the loop has
+   exited and every Subscribe, Publish and Shutdown call has returned *)
+Theorem C07_maximal_execution_finished :
+  forall ls s,
+  run init ls = Some s -> done_closed s = true ->
+  (forall l, internal l = true -> step s l = None) ->
+  pc s = Exited /\ (forall i, sub_pending (s_pc (sub s i)) = false)
+  /\ (forall p, pub_pending (p_pc (pub s p)) = false) /\ (forall h, shut_pending (h_pc (shut s h)) = false).
+Proof. exact maximal_finished_run. Qed.
+
 Theorem C07_measure_decreases :
   forall n s l s', bounded n s -> internal l = true -> step s l = Some s' -> lex_lt (mu n s') (mu n s).
 Proof. exact measure_step. Qed.
